@@ -70,6 +70,9 @@ def initial_cases(tier, seed):
         pts.append(dict(base, fam=fam, plan=plan, interp=interp))
     for fam, level, rm in itertools.product(dims["fam"], dims["level"], dims["rho_mult"]):
         pts.append(dict(base, fam=fam, level=level, rho_mult=rm))
+    # the spin-polarised path at every level / prefactor (the exponent functions have separate nspin branches per level)
+    for fam, level, rm in itertools.product(["VIJ-all", "VK"], dims["level"], dims["rho_mult"]):
+        pts.append(dict(base, fam=fam, level=level, rho_mult=rm, nspin=2))
     if not quick:
         for p in itertools.product(*dims.values()):
             pts.append(dict(zip(dims.keys(), p)))
